@@ -57,7 +57,7 @@ COMMENT_TEXTS = ["a comment", "Leading comment.", "two words", "with 'single' qu
 FIELD_NUMBERS = [1, 2, 3, 4, 5, 6, 7, 8, 9, 10, 11, 12, 13, 14, 15, 16, 17, 100, 127, 128, 2047, 2048, 16383, 16384,
                  18999, 20000, 65535, 1 << 20, (1 << 29) - 1]
 PACKAGES = ["", "alpha", "alpha.beta", "alpha.beta.gamma", "alpha.delta", "omega", "a1.b_2", "v1", "x.v1",
-            "pkg_with_underscore", "deep.er.and.deep.er"]
+            "pkg_with_underscore", "deep.er.an.deep.er"]
 
 
 class Field:
@@ -647,6 +647,10 @@ def witnesses():
     # K16: a class called like a typing import
     w("k16_list", "typing_name_shadow", "message List { repeated int32 xs = 1; }\nmessage B { repeated List ls = 1; }\n")
     w("k16_optional", "typing_name_shadow", "message Optional { int32 x = 1; }\nmessage C { optional int32 o = 2; }\n")
+    # K17: a package segment that is a Python keyword
+    w("k17_keyword_package", "keyword_package_segment", "message A { int32 x = 1; }\n", pkg="wk.lib",
+      extra={"k17_user.proto": H + 'package wk.import.v1;\nimport "k17_keyword_package.proto";\nmessage U { wk.lib.A a = 1; }\n',
+             "k17_user2.proto": H + 'package wk.other;\nimport "k17_user.proto";\nmessage V { wk.import.v1.U u = 1; }\n'})
     return W
 
 
